@@ -126,13 +126,69 @@ void harness(void) {
 }
 ''' % dict(N=BN, N1=BN + 1)
 PIPELINES.append(Pipeline('U1_coordinate_parser_value_bounded', units=[U_s2c], prelude=GHOST + REF, harness=H_FUNC, unwind=BN + 53,
-                          loop_contracts=False, solver='kissat', timeout=900, tier='quick',
+                          loop_contracts=False, solver='kissat', timeout=3000, tier='thorough',
                           bounded='input strings of at most %d characters (every string of that length over the full byte alphabet); exponents between -30 and 30' % BN,
                           replay=('c13_text', lambda cex, o: ['coord', hexs(bytes((cex.first('buf[%dl]' % k, 0) or 0) & 255 for k in range(BN)).split(b'\\0')[0])]),
                           note='functional correctness against the exact-decimal reference, bounded stand-in'))
 
+
+# ------------------------------------------------------------------ U6: opl_parse_int<T>
+EXC_OPL = ''
+INT_BINDS = [('i64', 'int64_t', 'INT64_MIN', 'INT64_MAX', 'id'), ('u32', 'uint32_t', '0', 'UINT32_MAX', 'version, uid, changeset'), ('i32', 'int32_t', 'INT32_MIN', 'INT32_MAX', 'signed uid')]
+for tag, T, tmin, tmax, use in INT_BINDS:
+    u = Unit(OPL, 'opl_parse_int', cname='opl_parse_int_' + tag, bind={'T': T, '#VERIF_T_MIN': tmin, '#VERIF_T_MAX': tmax},
+             witness=[('(*s)', 'ghost_n + 1', 32)])
+    contract = [
+        ('pre:nul-terminated-string', 'requires', STR_PP_REQUIRES % dict(pp='s')),
+        ('post:exception-class', 'ensures', 'verif_exc == 0 || verif_exc == EXC_opl_error'),
+        ('post:consumed-within-string', 'ensures', '__CPROVER_same_object(*s, __CPROVER_old(*s)) && __CPROVER_POINTER_OFFSET(*s) <= ghost_n'),
+        ('post:consumed-at-least-one-digit', 'ensures', 'verif_exc != 0 || (__CPROVER_POINTER_OFFSET(*s) >= 1 && (*s)[-1] >= \'0\' && (*s)[-1] <= \'9\')'),
+        ('post:greedy', 'ensures', 'verif_exc != 0 || **s < \'0\' || **s > \'9\''),
+        ('post:in-range-of-T', 'ensures', 'verif_exc != 0 || (__CPROVER_return_value >= (%s) && __CPROVER_return_value <= (%s))' % (tmin, tmax)),
+        ('frame', 'assigns', '*s, verif_exc'),
+    ]
+    loops = [['__CPROVER_assigns(*s, value, verif_exc)',
+              '__CPROVER_loop_invariant(__CPROVER_same_object(*s, __CPROVER_loop_entry(*s)) && __CPROVER_POINTER_OFFSET(*s) <= ghost_n && '
+              '__CPROVER_POINTER_OFFSET(*s) >= __CPROVER_POINTER_OFFSET(__CPROVER_loop_entry(*s)) && value <= 0 && verif_exc == 0 && '
+              '(__CPROVER_POINTER_OFFSET(*s) == __CPROVER_POINTER_OFFSET(__CPROVER_loop_entry(*s)) || ((*s)[-1] >= \'0\' && (*s)[-1] <= \'9\')))',
+              '__CPROVER_decreases(ghost_n - __CPROVER_POINTER_OFFSET(*s))']]
+    PIPELINES.append(Pipeline('U6_opl_parse_int_' + tag, units=[u], prelude=GHOST, contracts={u.cname: contract}, loops={u.cname: loops},
+                              harness='void harness(void) { const char** d; %s r = %s(d); __CPROVER_assert(verif_exc != 0, "canary:normal-return-reachable"); __CPROVER_assert(verif_exc == 0, "canary:throw-reachable"); }' % (T, u.cname),
+                              enforce=u.cname, canaries=['canary:normal-return-reachable', 'canary:throw-reachable'], timeout=300,
+                              replay=('c13_text', (lambda T, cn: (lambda cex, o: ['int', T, hexs(cex.witness(cn).split(b'\\0')[0])]))(T, u.cname)),
+                              note='opl_parse_int<%s> (%s): any NUL-terminated string: no overflow, no read past the NUL, greedy, result within the type' % (T, use)))
+    # bounded functional stand-in: value equals the decimal value of the digits
+    IN = 21
+    PIPELINES.append(Pipeline('U6_opl_parse_int_%s_value_bounded' % tag, units=[u], prelude=GHOST, unwind=IN + 2, loop_contracts=False, solver='kissat', timeout=(1800 if tag == 'i64' else 600), tier=('thorough' if tag == 'i64' else 'quick'),
+                              harness='''
+void harness(void) {
+  char buf[%(N1)d]; size_t n; __CPROVER_assume(n <= %(N)d); buf[n] = 0; verif_exc = 0; ghost_n = n;
+  const char* p = buf; const char** d = &p;
+  %(T)s r = %(fn)s(d);
+  /* reference: -?D+ greedy, exact value in 128 bit, must lie in the type */
+  size_t i = 0; int neg = 0; if (buf[0] == '-') { neg = 1; i = 1; }
+  int ok = buf[i] >= '0' && buf[i] <= '9';
+  __int128 v = 0;
+  for (size_t k = 0; k < %(N)d; ++k) { if (ok && i < n && buf[i] >= '0' && buf[i] <= '9') { v = v * 10 + (buf[i] - '0'); ++i; } }
+  if (neg) v = -v;
+  if (v < (__int128)(%(tmin)s) || v > (__int128)(%(tmax)s)) ok = 0;
+  __CPROVER_assert((verif_exc == 0) == (ok != 0), "F accepted exactly when it is an integer within the range of the type");
+  __CPROVER_assert(verif_exc != 0 || (__int128)r == v, "F value equals the decimal value");
+  __CPROVER_assert(verif_exc != 0 || (size_t)(p - buf) == i, "F consumes exactly the digits");
+  __CPROVER_assert(0, "canary");
+}''' % dict(N=IN, N1=IN + 1, T=T, fn=u.cname, tmin=tmin, tmax=tmax),
+                              bounded='input strings of at most %d characters' % IN,
+                              replay=('c13_text', (lambda T: (lambda cex, o: ['int', T, hexs(bytes((cex.first('buf[%dl]' % k, 0) or 0) & 255 for k in range(21)).split(b'\\0')[0])]))(T)),
+                              note='functional correctness against an exact 128-bit reference, bounded stand-in'))
+
 TRUSTED = ['std::copy_n on char ranges (C++ standard; stub body in stubs/base.h)']
 ASSUMPTIONS = ['input strings are NUL-terminated and shorter than 100000 bytes (object-size bound of the CBMC memory model; loop contracts make the proof independent of the length)']
 NOT_DECIDED = ['Location::set_lon(double) rounding (std::round)', 'calendar arithmetic of timegm/gmtime_r (libc)']
-LEVEL_TEXT = 'x'
-LEVEL_NOTE = 'x'
+LEVEL_TEXT = ('Proof (unbounded, loop contracts) that string_to_location_coordinate and opl_parse_int<int64/uint32/int32> are memory-safe on every '
+              'NUL-terminated string of any length, free of signed overflow, throw only the documented exception, consume greedily within the string and '
+              'return a value within the target type; complete proof (thorough tier, all 2^32 values, real formatter and parser bodies inlined with '
+              'complete unwinding) that parsing the text written for a coordinate returns the identical value. Functional correctness of the integer '
+              'parser against an exact 128-bit reference is a bounded stand-in (strings up to 21 characters).')
+LEVEL_NOTE = ('Trusted: CBMC, extraction rules, std::copy_n stub. Bounded stand-ins are labelled in the evidence and not counted as proof. Not decided: '
+              'decimal-exact value of string_to_location_coordinate for all grammar strings (the bounded stand-in for it did not finish and is in the thorough tier), '
+              'timestamps (timegm/gmtime_r are libc), strtoll/strtoul based id parsers, Location::set_lon(double).')
